@@ -155,6 +155,27 @@ func (g *c12Gen) nodes(depth int, inMacro int) []MNode {
 				nd.Body = append(nd.Body, MNode{K: "set", Name: pick(g.t, "msn", c12Names), E: &e})
 			}
 			nd.Body = append(nd.Body, g.probe())
+			// now and then the macro is used right away: called without arguments, one of the names
+			// its defaults read is bound anew, called again
+			var useNow []MNode
+			if drawInt(g.t, 0, 2, "usenow") == 0 {
+				target := pick(g.t, "usn", c12Names)
+				for _, p := range nd.Params {
+					if p.Def != nil && p.Def.K == "name" && !used[p.Def.N] && drawBool(g.t, "usedef") {
+						target = p.Def.N
+					}
+				}
+				isName := false
+				for _, nm := range c12Names {
+					if nm == target {
+						isName = true
+					}
+				}
+				if isName {
+					e := g.expr()
+					useNow = []MNode{{K: "call", Name: nd.Name}, {K: "set", Name: target, E: &e}, {K: "call", Name: nd.Name}, g.probe()}
+				}
+			}
 			if drawInt(g.t, 0, 2, "tolib") == 0 {
 				// the same macro, kept in a library file and imported: it runs in the scope it is
 				// called in just like a local one
@@ -162,9 +183,11 @@ func (g *c12Gen) nodes(depth int, inMacro int) []MNode {
 				file := fmt.Sprintf("/libm%d.tpl", idx)
 				g.files[file] = []MNode{nd}
 				out = append(out, MNode{K: "import", Name: file, Imps: []MPair{{Name: nd.Name}}})
+				out = append(out, useNow...)
 				continue
 			}
 			out = append(out, nd)
+			out = append(out, useNow...)
 		case "call":
 			max := 2
 			if inMacro >= 0 {
@@ -179,6 +202,14 @@ func (g *c12Gen) nodes(depth int, inMacro int) []MNode {
 				nd.Es = append(nd.Es, g.expr())
 			}
 			out = append(out, nd, g.probe())
+			if drawInt(g.t, 0, 2, "callagain") == 0 {
+				// the same call once more after one of the names was bound anew: defaults and the
+				// body's free names are read at the time of each call
+				e := g.expr()
+				again := nd
+				again.Es = append([]ME(nil), nd.Es...)
+				out = append(out, MNode{K: "set", Name: pick(g.t, "csn", c12Names), E: &e}, again, g.probe())
+			}
 			if drawBool(g.t, "probeall") {
 				for _, nm := range c12Names {
 					e := ME{K: "name", N: nm}
